@@ -207,6 +207,12 @@ func (e *Engine) unop(f *frame, st *State, x *ssa.UnOp, pos string) Val {
 	case token.MUL:
 		e.nilCheck(st, a, pos, "nil pointer dereference")
 		v := e.load(st, a, x.Type())
+		if a.Glob != nil && (a.Glob.String() == "io.Discard" || a.Glob.String() == "io/ioutil.Discard") {
+			// io.Discard is a stateless writer: writing to it changes nothing anybody can observe, so it is
+			// modelled as a writer private to this call (its byte count is ghost state only)
+			v.Terms = []*smt.Term{c.IntLit(int64(e.typeTag(errTagType) + 1000000)), e.newRef(st)}
+			e.note("io.Discard is modelled as a fresh stateless writer")
+		}
 		if a.Glob != nil && e.W.NonNilGlobals[a.Glob] && isInterface(x.Type()) {
 			e.assume(st, c.And(c.Not(c.Eq(v.Terms[0], c.IntLit(0))), c.Not(c.Eq(v.Terms[1], c.IntLit(0)))))
 			e.note("package-level error variables initialised with errors.New/fmt.Errorf and never reassigned are non-nil")
@@ -473,6 +479,7 @@ func (e *Engine) mapGet(st *State, m Val, key *smt.Term) (Val, *smt.Term) {
 	}
 	e.wrapPtr(&out)
 	e.assumeLoaded(st, out)
+	e.shareLoaded(st, m.Terms[0], out)
 	return out, h
 }
 
